@@ -60,6 +60,21 @@ def F01(fil):
     return kind == "exc", f"read_plan(gulp=16,start=10,nsamps=50) on N={N}: {val}"
 
 
+def F02(fil):
+    # skipback between gulp/2 and gulp: accepted, must then deliver exactly [start, start+nsamps)
+    got = []
+    kind, val = outcome(lambda: [(n, d.copy()) for n, _, d in fil.read_plan(gulp=10, start=0, nsamps=11, skipback=8, **Q)])
+    if kind == "exc":
+        return False, f"plan rejected: {val}"
+    end = 0
+    furthest = 0
+    for k, (n, d) in enumerate(val):
+        end = (end - 8 if k else 0) + n
+        furthest = max(furthest, end)
+    return furthest != 11 or end != 11, (f"read_plan(gulp=10, skipback=8, nsamps=11) blocks {[n for n, _ in val]} reach sample {furthest} "
+                                         f"(requested range ends at 11)")
+
+
 def F03(fil):
     kind, val = outcome(lambda: fil.collapse(gulp=16, start=16, **Q).data.size)
     return kind == "exc", f"collapse(start=16): {val}"
